@@ -75,7 +75,7 @@ fn burn_stack(n: u64) -> u64 {
     burn_stack(n + 1) + pad[3]
 }
 
-fn read_once(asset: &[u8], sidecar: Option<&[u8]>) -> ReadRes {
+fn read_once(asset: &[u8], sidecar: Option<&[u8]>, cap: u64) -> ReadRes {
     // self-test faults, injected only in the small-stack variant and only for big stores
     if std::thread::current().name() == Some("c19-small-stack") && asset.len() > 200_000 {
         match std::env::var("VERIF_SELFTEST").as_deref() {
@@ -88,10 +88,9 @@ fn read_once(asset: &[u8], sidecar: Option<&[u8]>) -> ReadRes {
     }
     let counter = Arc::new(AtomicU64::new(0));
     let c2 = counter.clone();
-    let ctx = sdk::context().with_progress_callback(move |_, _, _| {
-        c2.fetch_add(1, Ordering::Relaxed);
-        true
-    });
+    // the callback cancels the read once the caller's work bound is exceeded, so that a blow-up is reported
+    // by the counter at once instead of by the watchdog
+    let ctx = sdk::context().with_progress_callback(move |_, _, _| c2.fetch_add(1, Ordering::Relaxed) < cap);
     let r = vh::catch(|| match sidecar {
         Some(store) => Reader::from_context(ctx).with_manifest_data_and_stream(store, FMT, Cursor::new(asset.to_vec())),
         None => sdk::read_with(ctx, FMT, asset),
@@ -156,15 +155,16 @@ fn child_main(args: &[String]) -> ! {
         }
         let mut it = line.trim_end().split('\t');
         let (Some(pa), Some(ps)) = (it.next(), it.next()) else { break };
+        let cap: u64 = it.next().and_then(|c| c.parse().ok()).unwrap_or(u64::MAX);
         let asset = std::fs::read(pa).expect("child: asset");
         let sidecar = if ps == "-" { None } else { Some(std::fs::read(ps).expect("child: store")) };
-        let main_res = read_once(&asset, sidecar.as_deref());
+        let main_res = read_once(&asset, sidecar.as_deref(), cap);
         // report the first result before the stack-limited variant so that a crash there is attributable
         println!("MAIN {}", serde_json::to_string(&main_res).unwrap());
         let th = std::thread::Builder::new()
             .name("c19-small-stack".into())
             .stack_size(stack)
-            .spawn(move || read_once(&asset, sidecar.as_deref()))
+            .spawn(move || read_once(&asset, sidecar.as_deref(), cap))
             .expect("spawn");
         let thread_res = th.join().unwrap_or_else(|_| ReadRes { outcome: "panic".into(), ..Default::default() });
         println!("THREAD {}", serde_json::to_string(&thread_res).unwrap());
@@ -248,7 +248,7 @@ thread_local! {
     static WORKER: std::cell::RefCell<Option<Worker>> = const { std::cell::RefCell::new(None) };
 }
 
-fn run_child_once(asset: &[u8], sidecar: Option<&[u8]>, watchdog: Duration) -> ChildOutcome {
+fn run_child_once(asset: &[u8], sidecar: Option<&[u8]>, cap: u64, watchdog: Duration) -> ChildOutcome {
     use std::io::Write;
     let _ = std::fs::create_dir_all(WORK_DIR);
     let id = FILE_CTR.fetch_add(1, Ordering::SeqCst);
@@ -274,7 +274,7 @@ fn run_child_once(asset: &[u8], sidecar: Option<&[u8]>, watchdog: Duration) -> C
         }
         let w = slot.as_mut().unwrap();
         w.stderr.lock().unwrap().clear();
-        if writeln!(w.stdin, "{pa}\t{side_arg}").and_then(|_| w.stdin.flush()).is_err() {
+        if writeln!(w.stdin, "{pa}\t{side_arg}\t{cap}").and_then(|_| w.stdin.flush()).is_err() {
             *slot = None;
             return ChildOutcome::Crashed("worker stdin closed".into());
         }
@@ -340,10 +340,10 @@ fn run_child_once(asset: &[u8], sidecar: Option<&[u8]>, watchdog: Duration) -> C
 }
 
 /// One retry with a doubled watchdog before a hang is reported (the machine is shared).
-fn run_child(asset: &[u8], sidecar: Option<&[u8]>) -> ChildOutcome {
+fn run_child(asset: &[u8], sidecar: Option<&[u8]>, cap: u64) -> ChildOutcome {
     let wd = if selftest() == "child-hang" { 3 } else { WATCHDOG_S };
-    match run_child_once(asset, sidecar, Duration::from_secs(wd)) {
-        ChildOutcome::Hang { .. } => run_child_once(asset, sidecar, Duration::from_secs(wd * 2)),
+    match run_child_once(asset, sidecar, cap, Duration::from_secs(wd)) {
+        ChildOutcome::Hang { .. } => run_child_once(asset, sidecar, cap, Duration::from_secs(wd * 2)),
         o => o,
     }
 }
@@ -591,6 +591,9 @@ fn judge_outcome(run: &Run, label: &str, v: usize, e: usize, expect: &Expect, ou
     if selftest() == "exp-work" {
         main.progress = main.progress.saturating_mul(1u64 << (v.min(40) as u32));
     }
+    if run.replay.is_some() {
+        eprintln!("replay: {label}: V={v} E={e} main={main:?}");
+    }
     run.count(&format!("outcome_{}{}", main.outcome, if main.outcome == "ok" { format!("_{}", main.state) } else { String::new() }));
     if main.outcome == "panic" {
         run.count("reader_panicked");
@@ -754,7 +757,7 @@ fn judge_graph(run: &Run, g: &Graph) -> CaseResult {
             return Ok(());
         }
     };
-    let out = run_child(&asset, None);
+    let out = run_child(&asset, None, work_limit(a.v, a.e));
     if a.longest > depth_limit() && !a.cycle && a.min_depth <= depth_limit() {
         // observational: longest path exceeds the limit although every node is also reachable on a short path
         if let ChildOutcome::Done { main, .. } = &out {
@@ -1198,7 +1201,7 @@ fn judge_builder(run: &Run, c: &BCase) -> CaseResult {
             } else {
                 Expect::Free
             };
-            let out = run_child(&asset, None);
+            let out = run_child(&asset, None, work_limit(depth + 1, *depth));
             if let ChildOutcome::Done { main, .. } = &out {
                 if *depth + 10 >= limit {
                     run.count(&format!("A_chain_depth_{depth}_{}", if main.accepted() { "accepted" } else { "rejected" }));
@@ -1215,7 +1218,7 @@ fn judge_builder(run: &Run, c: &BCase) -> CaseResult {
                 cur = sign_with_ingredients(&format!("S{i}"), &[(&cur, "parentOf"), (&cur, rel2)])
                     .map_err(|e| Fail::new("C19:harness-sign-failed", format!("shared level {i}: {e}")))?;
             }
-            let out = run_child(&cur, None);
+            let out = run_child(&cur, None, work_limit(depth + 1, 2 * depth));
             judge_outcome(run, &format!("Builder shared sub-DAG depth {depth} ({rel2})"), depth + 1, 2 * depth, &Expect::Accept, &out)
         }
         BCase::StaleShared { depth, second, marker, width } => {
@@ -1265,18 +1268,22 @@ fn judge_builder(run: &Run, c: &BCase) -> CaseResult {
                 return Err(Fail::new("C19:harness-stale-edit", format!("marker found {hits} times in {manifests} manifests (depth {depth})")));
             }
             let new_asset = c2pa::jumbf_io::save_jumbf_to_memory(FMT, &asset, &edited).map_err(|e| Fail::new("C19:harness-embed", format!("{e:?}")))?;
-            let out = run_child(&new_asset, None);
+            let e = (2 * manifests.saturating_sub(w)).max(2 * depth);
+            let out = run_child(&new_asset, None, work_limit(manifests, e));
             if let ChildOutcome::Done { main, .. } = &out {
                 if main.failures.iter().any(|f| f == "ingredient.manifest.mismatch") {
                     run.count("A_stale_shared_mismatch_reported");
                 }
+                run.note(format!(
+                    "stale Builder DAG depth {depth} width {w} marker {marker}: {manifests} manifests, progress callbacks {} statuses {} outcome {} {}",
+                    main.progress, main.entries, main.outcome, main.state
+                ));
             }
-            let e = 2 * manifests.saturating_sub(w);
             judge_outcome(
                 run,
                 &format!("Builder shared sub-DAG depth {depth} width {w} ({rel2}) with every manifest edited (marker {marker})"),
                 manifests,
-                e.max(2 * depth),
+                e,
                 &Expect::Reject("stale-hash"),
                 &out,
             )
@@ -1289,7 +1296,7 @@ fn judge_builder(run: &Run, c: &BCase) -> CaseResult {
             }
             let ing: Vec<(&[u8], &str)> = leaves.iter().map(|l| (l.as_slice(), "componentOf")).collect();
             let top = sign_with_ingredients("fan", &ing).map_err(|e| Fail::new("C19:harness-sign-failed", e))?;
-            let out = run_child(&top, None);
+            let out = run_child(&top, None, work_limit(k + 1, *k));
             judge_outcome(run, &format!("Builder fan {k}"), k + 1, *k, &Expect::Accept, &out)
         }
         BCase::Update { depth } => {
@@ -1308,7 +1315,7 @@ fn judge_builder(run: &Run, c: &BCase) -> CaseResult {
                 Ok(Ok(a)) => a,
                 other => return Err(Fail::new("C19:harness-sign-failed", format!("update manifest: {other:?}"))),
             };
-            let out = run_child(&asset, None);
+            let out = run_child(&asset, None, work_limit(depth + 2, depth + 1));
             judge_outcome(run, &format!("Builder update manifest over chain {depth}"), depth + 2, depth + 1, &Expect::Accept, &out)
         }
         BCase::Dangling { depth, victim, method } => {
@@ -1344,10 +1351,10 @@ fn judge_builder(run: &Run, c: &BCase) -> CaseResult {
             };
             if *method == 0 && *victim == 1 {
                 // non-vacuity of the sidecar read path: untouched store + same asset must be accepted
-                let ctl = run_child(&asset, Some(&store));
+                let ctl = run_child(&asset, Some(&store), work_limit(depth + 1, *depth));
                 judge_outcome(run, &format!("sidecar-read control, chain {depth}"), depth + 1, *depth, &Expect::Accept, &ctl)?;
             }
-            let out = run_child(&new_asset, sidecar.as_deref());
+            let out = run_child(&new_asset, sidecar.as_deref(), work_limit(*depth, *depth));
             if let ChildOutcome::Done { main, .. } = &out {
                 for f in &main.failures {
                     if f.contains("ingredient") {
@@ -1391,7 +1398,7 @@ fn fit_bound(run: &Run) {
     for d in 1..=5usize {
         match chain_stage(d) {
             Ok(a) => {
-                let out = run_child(&a, None);
+                let out = run_child(&a, None, u64::MAX);
                 consider(format!("builder chain {d}"), d + 1, d, &out, &mut rows);
             }
             Err((at, e)) => run.inconclusive(format!("cannot build control chain stage {at}: {e}")),
@@ -1402,13 +1409,16 @@ fn fit_bound(run: &Run) {
         };
         match craft(&g) {
             Ok(a) => {
-                let out = run_child(&a, None);
+                let out = run_child(&a, None, u64::MAX);
                 consider(format!("crafted chain {d}"), d + 1, d, &out, &mut rows);
             }
             Err(e) => run.inconclusive(format!("cannot craft control chain {d}: {e}")),
         }
     }
-    let c = (worst * 20.0).max(1.0);
+    let mut c = (worst * 20.0).max(1.0);
+    if selftest() == "tiny-bound" {
+        c = 0.02; // every larger read must then be cancelled by the in-child cap and flagged
+    }
     run.extra("work_bound", json!({"c_times_20": c, "formula": "work = progress callbacks + reported statuses <= c*(V+E)^2", "controls": rows}));
     let _ = BOUND.set(Bound { c });
 }
